@@ -1,5 +1,6 @@
 import Afkak.Monitor.C17
 import AfkakProofs.Group.Trace
+import AfkakProofs.Group.Retry
 import AfkakProps.Open.C17
 /-!
 # C17 — a started group member always progresses toward stable membership
@@ -40,6 +41,15 @@ theorem C17_fatal_surfaces_counterexample : ¬ Open.C17_fatal_surfaces := by
   have := (h exCfg [.start, .coordDone (.err .nonKafka)]).2
   revert this
   decide +kernel
+
+/-- Every retriable condition ⇒ a rejoin after the documented back-off (monitor `retriableRejoins`
+    on every model trace): whenever a started, not stopping member processes a Kafka error — on the
+    coordinator look-up, escaping the join (metadata load, leader partition load), on a join / sync /
+    heartbeat reply or from a consumer — a rejoin is wanted afterwards, a rejoin / coordinator-retry
+    timer is pending, and every such timer set in that step has the DOCUMENTED delay for that error
+    kind and site (`documentedDelayMs`, written out independently of the generated tables). -/
+theorem C17_retriable_rejoins (cfg : Cfg) (evs : List Ev) : retriableRejoins cfg (toMSteps (run cfg evs)) = true :=
+  retriable_run cfg evs
 
 /-- A stable member heartbeats: in every reachable state, if no rejoin is wanted and the member is
     not stopping, the heartbeat looper is running and its timer is pending. -/
@@ -88,6 +98,7 @@ end Afkak.Props.C17
 C17_never_idle_partial
 C17_never_idle_counterexample
 C17_fatal_surfaces_counterexample
+C17_retriable_rejoins
 C17_stable_heartbeat
 C17_retriable_table
 C17_fatal_table
@@ -96,7 +107,7 @@ C17_forgotten_member_resets
 /- OPEN_STATEMENTS
 C17_never_idle
 C17_fatal_surfaces
-C17_retriable_rejoins
+C17_fatal_surfaces_on_replies
 C17_rejoins_bounded
 C17_fresh_after_eviction
 -/
